@@ -403,6 +403,30 @@ fn directed(k: usize) -> String {
 }
 
 /// rename a user definition to the printed name of a lifted / shared definition of the same program
+/// the program with one of its definitions renamed to a name the compiler generated for it (not
+/// compiled here: C18 judges it under its watchdog)
+pub fn clash_text(case: &FunCase) -> Option<String> {
+    let st = stages(&case.src).ok()?;
+    let generated: Vec<String> = st
+        .linear
+        .defs
+        .iter()
+        .filter(|d| d.name.id > 0 || d.name.name.starts_with("share_"))
+        .map(|d| if d.name.id == 0 { d.name.name.clone() } else { format!("{}_{}", d.name.name, d.name.id) })
+        .collect();
+    let target = generated.first()?.clone();
+    let victim = case.prog.defs.iter().map(|d| d.name.clone()).find(|n| n != "main" && !generated.contains(n))?;
+    let toks = crate::mutate::tokenize(&case.src);
+    let out: Vec<crate::mutate::Tok> = toks
+        .into_iter()
+        .map(|t| match &t {
+            crate::mutate::Tok::Word(w) if *w == victim => crate::mutate::Tok::Word(target.clone()),
+            _ => t,
+        })
+        .collect();
+    Some(crate::mutate::untokenize(&out))
+}
+
 fn clash_variant(case: &FunCase) -> Option<String> {
     let st = stages(&case.src).ok()?;
     let generated: Vec<String> = st
